@@ -23,6 +23,11 @@ REPO = os.environ.get('ENGINEIO_REPO', '/repo')
 FILES = ['socket.py', 'async_socket.py', 'server.py', 'async_server.py', 'base_server.py',
          'base_socket.py', 'packet.py', 'payload.py', 'json.py', 'client.py', 'async_client.py',
          'base_client.py', 'middleware.py', 'static_files.py', 'async_drivers/asgi.py']
+if os.environ.get('MUT_DRIVERS'):
+    FILES = FILES + ['async_drivers/aiohttp.py', 'async_drivers/tornado.py',
+                     'async_drivers/sanic.py', 'async_drivers/gevent_uwsgi.py',
+                     'async_drivers/_websocket_wsgi.py', 'async_drivers/eventlet.py',
+                     'async_drivers/gevent.py', 'async_drivers/threading.py']
 PROPS = ['C%02d' % i for i in range(1, 21)]
 CMP = {ast.Lt: ast.LtE, ast.LtE: ast.Lt, ast.Gt: ast.GtE, ast.GtE: ast.Gt, ast.Eq: ast.NotEq,
        ast.NotEq: ast.Eq, ast.Is: ast.IsNot, ast.IsNot: ast.Is, ast.In: ast.NotIn,
@@ -103,6 +108,10 @@ def cmd_gen(args):
         # drop mutants whose unparse equals the original module
         base = ast.unparse(ast.parse(open(os.path.join(REPO, 'src/engineio', rel)).read()))
         ms = [m for m in ms if m['new_src'] != base]
+        if '--exclude' in args:
+            seen = {(x['file'], x['line'], x['op'], x['old']) for x in
+                    json.load(open(args[args.index('--exclude') + 1]))}
+            ms = [m for m in ms if (m['file'], m['line'], m['op'], m['old']) not in seen]
         rnd.shuffle(ms)
         # stratify by operator
         byop = {}
